@@ -260,6 +260,10 @@ def CanonOp (op : Str) : Prop := op ∈ Gen.MarkerTok.rOp.2.1 ∨ op = s_in ∨ 
 
 def CanonAtom (a : Atom) : Prop := CanonNode a.lhs ∧ CanonOp a.op ∧ CanonNode a.rhs
 
+instance (n : Node) : Decidable (CanonNode n) := by cases n <;> (unfold CanonNode; infer_instance)
+instance (op : Str) : Decidable (CanonOp op) := by unfold CanonOp; infer_instance
+instance (a : Atom) : Decidable (CanonAtom a) := by unfold CanonAtom; infer_instance
+
 theorem canonicalVars_fixed : ∀ s ∈ canonicalVars, processEnvVar s = .var s := by decide
 
 theorem canonNode_plain (n : Node) (h : CanonNode n) : PlainNode n := by
